@@ -26,8 +26,10 @@ theorem fx_readDiskCache : Gen.C16.fx_readDiskCache = ModCache.goReadDiskCache :
 theorem fx_writeDiskCache : Gen.C16.fx_writeDiskCache = ModCache.goWriteDiskCache := by decide
 theorem fx_lockVersion : Gen.C16.fx_lockVersion = ModCache.goLockVersion := by decide
 
-/-- what Fetch removes under the version lock: entries named `filepath.Base(dir) + ".tmp-"…`
-(prefix test on the directory entries of the parent) and `dir` itself when it is partial -/
+/-- what Fetch removes under the version lock: entries of the parent directory named
+`filepath.Base(dir) + ".tmp-" + <digits>` that are not themselves named after a version
+(`ok && isAllDigits(suffix) && !isVersionDir(entry.Name())`), and `dir` itself when partial;
+`isAllDigits` and `isVersionDir` are pinned and transcribed in Model/ModCachePaths.lean -/
 theorem fx_Fetch_removes : Gen.C16.fx_Fetch_removes = ModCache.goFetchRemoves := by decide
 theorem fx_Fetch_defs : Gen.C16.fx_Fetch_defs = ModCache.goFetchDefs := by decide
 theorem cleanup_tmp_suffix : Gen.C16.cleanup_tmp_suffix = ModCache.tmpSuffixText := by decide
@@ -53,7 +55,7 @@ theorem hook_order_warm_fromcache :
      | none => []) = Gen.C16.fx_downloadDir_hooks := by decide
 theorem hook_order_fromcache : ModCache.coldHooks 3 .fetchFromCache = Gen.C16.fx_FetchFromCache_hooks := by decide
 
-theorem pin_modcache_Cache_Fetch : Gen.C16.pin_modcache_Cache_Fetch = "1810321e9f520314" := by decide
+theorem pin_modcache_Cache_Fetch : Gen.C16.pin_modcache_Cache_Fetch = "5ea76b9d3c232af1" := by decide
 theorem pin_modcache_Cache_FetchFromCache : Gen.C16.pin_modcache_Cache_FetchFromCache = "e2bff6dd2316d2b5" := by decide
 theorem pin_modcache_Cache_downloadZip : Gen.C16.pin_modcache_Cache_downloadZip = "a0701c8899cddee4" := by decide
 theorem pin_modcache_Cache_downloadZip1 : Gen.C16.pin_modcache_Cache_downloadZip1 = "5d5ed189ad24fcc0" := by decide
@@ -79,5 +81,7 @@ theorem pin_robustio_WriteFile : Gen.C16.pin_robustio_WriteFile = "58be92685c92f
 theorem pin_robustio_ReadFile : Gen.C16.pin_robustio_ReadFile = "3a3b398ea3a9343c" := by decide
 theorem pin_modregistry_Module_GetZip : Gen.C16.pin_modregistry_Module_GetZip = "7c679de0fdba6785" := by decide
 theorem pin_modregistry_Module_ModuleFile : Gen.C16.pin_modregistry_Module_ModuleFile = "6ee0d8f24b966d1b" := by decide
+theorem pin_modcache_isAllDigits : Gen.C16.pin_modcache_isAllDigits = "8e75289aa85939f3" := by decide
+theorem pin_modcache_isVersionDir : Gen.C16.pin_modcache_isVersionDir = "bc45db5be54fe908" := by decide
 
 end CueVerif.Bridge.C16
